@@ -320,13 +320,20 @@ impl Limits {
     }
 
     /// The time (ms) the limits allow for the side to move: min(movetime, own clock).
+    /// If neither is given but some clock figure is (only the opponent's clock, only
+    /// increments), no reading of "the time the limits allow" can exceed the largest time
+    /// figure in the command: that envelope is used.
     pub fn deadline_ms(&self, white_to_move: bool) -> Option<u64> {
         let own = if white_to_move { self.wtime } else { self.btime };
         match (self.movetime, own) {
             (Some(a), Some(b)) => Some(a.min(b)),
             (Some(a), None) => Some(a),
             (None, Some(b)) => Some(b),
-            (None, None) => None,
+            (None, None) => [self.wtime, self.btime, self.winc, self.binc]
+                .iter()
+                .flatten()
+                .max()
+                .copied(),
         }
     }
 }
@@ -410,6 +417,10 @@ pub fn decorate_all(script: &mut [Action], rng: &mut Rng, intensity: u64) {
 /// Machine model: cost per unit of work and stall faults.
 pub fn machine(plan: &mut Plan, rng: &mut Rng, expected_ticks: u64, allow_stalls: bool) {
     plan.cost_ns = *rng.pick(&[200, 1000, 1000, 5000, 25000]);
+    if allow_stalls {
+        // scheduling latency: what a context switch (incl. starting a thread) costs
+        plan.switch_ns = *rng.pick(&[0, 0, 0, 1_000, 50_000, 2_000_000, 20_000_000]);
+    }
     if allow_stalls && rng.chance(1, 3) {
         let n = rng.range(1, 3);
         for _ in 0..n {
